@@ -290,7 +290,7 @@ func (p *batchProp[C]) run(t *testing.T) {
 			}
 			var rf replayFile
 			var c C
-			if json.Unmarshal(data, &rf) != nil || json.Unmarshal(rf.Case, &c) != nil {
+			if json.Unmarshal(data, &rf) != nil || (rf.Test != "" && rf.Test != currentTestName) || json.Unmarshal(rf.Case, &c) != nil {
 				continue
 			}
 			saved = append(saved, c)
